@@ -5,6 +5,7 @@ CONSTANTS
   MaxEnv = 13
   MaxInc = 5
   MaxRaise = 2
+  MaxBlock = 0
 INVARIANT NoViolation
 INVARIANT Structural
 INVARIANT Bounded
